@@ -152,7 +152,7 @@ Theorem C18_fp_opaque_public_invariant : forall ops sub c a d, 0 <= c < 42949672
 Proof. exact opaque_pub_invariant. Qed.
 Print Assumptions C18_fp_opaque_public_invariant.
 (* a PRIVATE key of an unknown algorithm: its `data` is the whole stored material (the public/secret boundary is
-   unknown), all of it is hashed, and PrivKeyV4.pubkey() REFUSES (NotImplementedError): there is no twin that could
+   unknown), all of it is hashed (the ONE thing still outside the property: no public body exists to compare with), and PrivKeyV4.pubkey() REFUSES (NotImplementedError): there is no twin that could
    have another fingerprint *)
 Theorem C18_fp_opaque_private_characterised : forall sub c a d sp,
   0 <= c < 4294967296 -> 0 <= a < 256 -> 6 + Z.of_nat (length d) < 65536 ->
@@ -181,11 +181,52 @@ Print Assumptions C18_fp_opaque_copy_old_refuted.
 Theorem C18_steps_old_same_supported : forall k o, wf_pub k -> apply_op k o = Some (apply_op_old k o).
 Proof. exact apply_op_old_same. Qed.
 Print Assumptions C18_steps_old_same_supported.
-(* STILL outside the property: re-emission of a private packet of an unknown algorithm appends an S2K usage octet *)
-Theorem C18_opaque_private_reemit_refuted :
-  key_body opaque_sec_witness <> [4] ++ be 4 1000 ++ [21] ++ [0; 9; 1; 255; 0; 0; 7; 99].
-Proof. exact opaque_private_reemit_refuted. Qed.
-Print Assumptions C18_opaque_private_reemit_refuted.
+(* since repair c516614 a private packet of an unknown algorithm is written back as received: version, time, algorithm
+   and the opaque octets, whatever the unused secret-part fields hold; every step but pubkey() (copy, export + import,
+   protect / unlock / lock) leaves its body and the hashed octets as they are *)
+Theorem C18_opaque_private_reemit : forall sub c a d sp, 0 <= c < 4294967296 -> 0 <= a < 256 ->
+  key_body (opaque_sec sub c a d sp) = [4] ++ be 4 c ++ [a] ++ d.
+Proof. exact opaque_private_reemit. Qed.
+Print Assumptions C18_opaque_private_reemit.
+Theorem C18_opaque_private_steps : forall sub c a d sp o, 0 <= c < 4294967296 -> a = 0 \/ a = 21 -> o <> OpPubkey ->
+  exists sp', apply_op (opaque_sec sub c a d sp) o = Some (opaque_sec sub c a d sp') /\
+    key_body (opaque_sec sub c a d sp') = key_body (opaque_sec sub c a d sp) /\
+    fp_input (opaque_sec sub c a d sp') = fp_input (opaque_sec sub c a d sp).
+Proof. exact opaque_sec_step. Qed.
+Print Assumptions C18_opaque_private_steps.
+(* the composition BEFORE that repair (keymaterial_bytes_old / key_body_old: the secret tail after the opaque octets too)
+   is refuted: another body than the one received, one octet longer (packet length and later offsets differ); it is
+   the repaired composition wherever the material is not opaque *)
+Theorem C18_opaque_private_reemit_old_refuted :
+  key_body_old opaque_sec_witness <> [4] ++ be 4 1000 ++ [21] ++ [0; 9; 1; 255; 0; 0; 7; 99] /\
+  key_body_old opaque_sec_witness <> key_body opaque_sec_witness /\
+  length (key_body_old opaque_sec_witness) = S (length (key_body opaque_sec_witness)).
+Proof. exact opaque_private_reemit_old_refuted. Qed.
+Print Assumptions C18_opaque_private_reemit_old_refuted.
+Theorem C18_key_body_old_same : forall k, is_opaque (k_mat k) = false -> key_body_old k = key_body k.
+Proof. exact key_body_old_same. Qed.
+Print Assumptions C18_key_body_old_same.
+
+(* ---- the secret part after the public material (never hashed: C18_fp_public_only) under String2Key.__bool__ = usage != 0
+   (repair 8563c06): every non-zero usage octet - 254, 255 or a cipher id - is followed by what String2Key writes and the
+   ciphertext only; usage 0 by the integers and the checksum ---- *)
+Theorem C18_sec_tail_protected : forall sp, s_usage sp <> 0 -> sec_tail sp = s_usage sp :: s_s2k sp ++ s_enc sp.
+Proof. exact sec_tail_protected. Qed.
+Print Assumptions C18_sec_tail_protected.
+Theorem C18_sec_tail_clear : forall sp, s_usage sp = 0 -> sec_tail sp = 0 :: flat_map to_mpibytes (s_priv sp) ++ s_chk sp.
+Proof. exact sec_tail_clear. Qed.
+Print Assumptions C18_sec_tail_clear.
+(* the rule before that repair (only 254 / 255 protected) is the same function on 0 / 254 / 255 and refuted on a cipher-id
+   usage octet: usage octet and the cleared integers were written, IV and ciphertext dropped *)
+Theorem C18_sec_tail_old_same : forall sp, s_usage sp = 0 \/ s_usage sp = 254 \/ s_usage sp = 255 -> sec_tail_old sp = sec_tail sp.
+Proof. exact sec_tail_old_same. Qed.
+Print Assumptions C18_sec_tail_old_same.
+Theorem C18_sec_tail_legacy_old_refuted :
+  sec_tail_old legacy_witness <> sec_tail legacy_witness /\
+  sec_tail legacy_witness = 7 :: s_s2k legacy_witness ++ s_enc legacy_witness /\
+  sec_tail_old legacy_witness = [7; 0; 0].
+Proof. exact sec_tail_legacy_old_refuted. Qed.
+Print Assumptions C18_sec_tail_legacy_old_refuted.
 (* above 65535 octets the code hashes the first and last of three length octets (no RFC value exists there) *)
 Theorem C18_fp_length_prefix_above_bound : forall v, 65536 <= v < 16777216 ->
   firstn 1 (int_to_bytes v 2) ++ lastn 1 (int_to_bytes v 2) = [v / 65536; v mod 256].
